@@ -626,8 +626,11 @@ def check_algebra(ctx, rng, reqs, metas, n_cases):
         else:
             ops.append({"k": "appendMapping", "mapping": other})
             tot = n_maps + len(other["maps"])
-            a, b = sorted((rng.randint(0, tot), rng.randint(0, tot + (1 if rng.random() < 0.2 else 0))))
+            beyond = 1 if rng.random() < 0.25 else 0        # bounds one past the last map: IndexError iff the loop gets there
+            a, b = sorted((rng.randint(0, tot + beyond), rng.randint(0, tot + beyond)))
             ops.append({"k": "slice", "from": a, "to": None if (final == "slice" and rng.random() < 0.3) else b})
+            if ops[-1]["to"] is not None and b > tot:
+                ctx.count("algebra_slice_beyond_end" + (":empty" if a == b else ""))
         st, m = outcome(lambda: apply_ops(ops))
         ctx.case(["algebra", ops], sample={"op": "Mapping builder sequence", "ops": [o["k"] for o in ops]})
         ctx.count("algebra_cases")
